@@ -221,6 +221,16 @@ def index_spaces(chk, fi, origs):
         fl = [n for n in cfg.nodes if n.kind == "branch" and ">" in norm(n.ast.test) and "flag" in norm(n.ast.test)]
         ok = len(fl) == 1 and isinstance(fl[0].ast.test.ops[0], ast.Gt)
         chk.ob("R06.1", q + "::largest-flag-wins", ok, fi.where(), "within a run the kept position is replaced only by a strictly larger flag")
+        if ok:
+            # running maximum: in the arm taken for a larger flag, the remembered flag and the kept position are updated together
+            t = fl[0].ast.test
+            cur, best = norm(t.left), norm(t.comparators[0])
+            arm = [n for n in cfg.nodes if n.kind == "stmt" and any(b.id == fl[0].id and lab == "T" for b, lab in view.controlling_branches(n))]
+            upd = any(isinstance(n.ast, ast.Assign) and norm(n.ast.targets[0]) == best and norm(n.ast.value) == cur for n in arm)
+            kept = any(isinstance(n.ast, ast.Assign) and isinstance(n.ast.targets[0], ast.Subscript) for n in arm)
+            chk.ob("R06.1", q + "::running-maximum-updated-with-kept-position", upd and kept, fi.where(fl[0].ast),
+                   "when `%s` holds both the remembered best flag (`%s = %s`) and the kept position are replaced; otherwise a later, smaller flag can still displace the largest one"
+                   % (norm(t), best, cur))
         srt = [x for x in walk_no_nested(fn) if isinstance(x, ast.Call) and call_name(x) == "sort" and isinstance(x.func, ast.Attribute)]
         chk.ob("R06.1", q + "::sorts-own-array", all(norm(c.func.value) == s for c in srt), fi.where(), "the final sort is applied to the local index array, not an argument")
 
@@ -243,6 +253,18 @@ def match_rules(chk, repo):
     chk.ob("R06.2", q + "::scalars-accepted", a1 is not None and a2 is not None, fi.where(), "both inputs pass numpy.atleast_1d (scalars accepted): %s, %s" % (a1, a2))
     if a1 is None or a2 is None:
         return
+    # the values compared are the caller's values: after normalisation the two arrays are never re-bound to a converted copy
+    # (a dtype conversion truncates strings / wraps integers, and equality of the converted values is not equality of the inputs)
+    for nm in (a1, a2):
+        extra = []
+        for d in env.get(nm, [])[1:]:
+            v = d.value
+            keep = isinstance(v, ast.Call) and call_name(v) in ("ravel", "reshape", "atleast_1d", "asarray", "asanyarray", "squeeze", "flatten") \
+                and not any(k.arg == "dtype" for k in v.keywords) and len(v.args) <= 1
+            if not keep:
+                extra.append(norm(d)[:80])
+        chk.ob("R06.2", q + "::compared-values-are-the-inputs::" + nm, not extra, fi.where(),
+               "`%s` keeps the caller's values and type up to the equality test (no conversion in between)%s" % (nm, "" if not extra else ": re-bound by `%s`" % extra[0]))
     # uniqueness guard
     ss = [(n, c) for n in cfg.nodes for c in rules.stmts_calls(n) if call_name(c) == "searchsorted"]
     chk.ob("R06.2", q + "::single-search", len(ss) == 1, fi.where(), "one searchsorted call")
